@@ -6,6 +6,7 @@ package main
 import (
 	"fmt"
 	"strings"
+	"time"
 
 	flyt "github.com/mark3labs/flyt"
 	"github.com/mark3labs/flyt/zzvrt/core"
@@ -24,10 +25,15 @@ type poolScn struct {
 	round2   string   // tasks the main thread submits after the first Wait
 	selfWait bool     // single submitter: submitter itself interleaves Wait after each Submit
 	limit    bool     // C08: check that never more than max(w,1) tasks are in flight
+	overlap  string   // tasks a second thread submits WHILE the main thread is inside Wait (a gated task of the main thread keeps the counter above zero)
 }
 
 func (p poolScn) name() string {
-	return fmt.Sprintf("pool w=%d progs=%s round2=%q selfwait=%v", p.w, strings.Join(p.progs, "|"), p.round2, p.selfWait)
+	n := fmt.Sprintf("pool w=%d progs=%s round2=%q selfwait=%v", p.w, strings.Join(p.progs, "|"), p.round2, p.selfWait)
+	if p.overlap != "" {
+		n += " submit-during-wait=" + p.overlap
+	}
+	return n
 }
 
 // poolObs: harness state shared between threads lives in Cells (events in the
@@ -43,7 +49,10 @@ type poolObs struct {
 
 func (p poolScn) scenario(bound int) Scenario {
 	var o *poolObs
-	total := len(p.round2)
+	total := len(p.round2) + len(p.overlap)
+	if p.overlap != "" {
+		total++ // the gated task
+	}
 	for _, pr := range p.progs {
 		total += len(pr)
 	}
@@ -78,6 +87,9 @@ func (p poolScn) scenario(bound int) Scenario {
 				}
 				if kind == 'y' {
 					core.Yield()
+				}
+				if kind == 's' {
+					core.Sleep(2 * time.Second) // a task that takes (virtual) time: the queue stays full meanwhile
 				}
 				o.vars[k].Store(k + 1)
 				o.finished[k].Set(o.finished[k].Get() + 1)
@@ -132,7 +144,39 @@ func (p poolScn) scenario(bound int) Scenario {
 		for _, t := range ths {
 			core.Join(t)
 		}
+		if p.overlap != "" {
+			// Submit concurrent with Wait is legal while the counter is above zero: the main
+			// thread's gated task stays unfinished until the other thread's Submits have returned
+			var released core.Cell[bool]
+			gid := k
+			k++
+			gate := func() {
+				o.started[gid].Set(o.started[gid].Get() + 1)
+				core.Logf("gated task %d start", gid)
+				core.Block("gate", func() bool { return released.Peek() })
+				released.Get()
+				o.vars[gid].Store(gid + 1)
+				o.finished[gid].Set(o.finished[gid].Get() + 1)
+				core.Logf("gated task %d end", gid)
+			}
+			pool.Submit(gate)
+			o.submitRet[gid].Set(true)
+			base := k
+			k += len(p.overlap)
+			core.Go("harness:late-submitter", func() {
+				for i := 0; i < len(p.overlap); i++ {
+					pool.Submit(mkTask(base+i, p.overlap[i]))
+					o.submitRet[base+i].Set(true)
+				}
+				released.Set(true)
+			})
+		}
 		waitAndCheck("main")
+		if p.overlap != "" {
+			// a second Wait, after the late submitter is surely done, covers its tasks too
+			core.WaitQuiescent()
+			waitAndCheck("main-after-overlap")
+		}
 		for i := 0; i < len(p.round2); i++ {
 			id := k + i
 			pool.Submit(mkTask(id, p.round2[i]))
@@ -280,6 +324,19 @@ func genC12(tier string) []Scenario {
 		}
 		if thorough {
 			ps = append(ps, poolScn{w: w, progs: []string{"iy"}, round2: "yi"}, poolScn{w: w, progs: []string{"i", "y"}, round2: "iy"})
+		}
+		// --- slow tasks: the submitter stays blocked on a full queue while time passes
+		if !small {
+			ps = append(ps, poolScn{w: w, progs: []string{strings.Repeat("s", 2*eff+2)}})
+		}
+		// --- Submit from another thread while the main thread is inside Wait
+		if !small {
+			for _, ov := range []string{"i", "y", "ii"} {
+				if ov == "ii" && !thorough && eff > 1 {
+					continue
+				}
+				ps = append(ps, poolScn{w: w, progs: []string{""}, overlap: ov})
+			}
 		}
 	}
 	bounds := []int{2}
